@@ -11,8 +11,9 @@ from vlib.mir import dump_mir, Mir, Exec, Int
 from vlib.native import Native
 from vlib.smtprop import discharge
 
-SHAPES = [  # (K, T, N, Al); Vec<Vec<u8>> growth limits CBMC to two symbols when N > 1
-    (2, 4, 2, 1), (2, 6, 3, 2), (2, 5, 2, 1), (2, 8, 3, 1), (3, 6, 1, 1), (2, 4, 2, 2),
+SHAPES = [  # (K, T, N, Al); Vec<Vec<u8>> growth limits CBMC to two symbols when N > 1.
+    # Al > 1 shapes include N not dividing T/Al (unequal sub-symbols measured in alignment units, not bytes)
+    (2, 4, 2, 1), (2, 6, 2, 2), (2, 5, 2, 1), (2, 8, 3, 1), (3, 6, 1, 1), (2, 12, 2, 4), (2, 6, 3, 2),
 ]
 SHAPES_THOROUGH = [(2, 7, 3, 1), (2, 12, 5, 2), (2, 9, 4, 1), (2, 16, 3, 4), (2, 3, 3, 1), (2, 10, 4, 1), (3, 4, 2, 1)]
 TZ = [(1, 1), (3, 2), (8, 3), (5, 4)]
@@ -218,7 +219,8 @@ def run(ctx):
         offsets_and_decoder_new(ctx, mir, tag, ZB)
     # ---- concrete objects
     t0 = time.time()
-    cases = [(1, 1, 1, 1, 1), (10, 4, 1, 1, 1), (100, 8, 3, 2, 2), (101, 8, 3, 2, 1), (999, 24, 5, 3, 8), (250, 12, 4, 4, 1), (77, 16, 2, 2, 4), (1000, 40, 2, 5, 8)]
+    cases = [(1, 1, 1, 1, 1), (10, 4, 1, 1, 1), (100, 8, 3, 2, 2), (101, 8, 3, 2, 1), (999, 24, 5, 3, 8), (250, 12, 4, 4, 1), (77, 16, 2, 2, 4), (1000, 40, 2, 5, 8),
+             (1003, 40, 3, 2, 8), (500, 24, 2, 2, 8), (333, 20, 2, 3, 4), (90, 6, 4, 2, 2)]   # N does not divide T/Al with Al > 1
     n = 0
     for F, T, Z, N, Al in cases:
         out = native.run(["object-packets", F, T, Z, N, Al, 2], release=False)
